@@ -32,6 +32,12 @@ pub struct Universe {
 }
 
 pub fn build(forge: &mut Forge, cons: &Consensus) -> Result<Universe, String> {
+    build_len(forge, cons, CHAIN_LEN, true)
+}
+
+/// `with_uncle`: in the dynamic world an uncle sends the next epoch's length to the formula's lower
+/// bound (300 blocks), so that universe has none
+pub fn build_len(forge: &mut Forge, cons: &Consensus, chain_len: u64, with_uncle: bool) -> Result<Universe, String> {
     let txu = TxUniverse::new(cons);
     let cells = genesis_cells(cons);
     let late = simple_tx(cons, &cells[5..6], 2, 7_000_000, 11);
@@ -39,7 +45,7 @@ pub fn build(forge: &mut Forge, cons: &Consensus) -> Result<Universe, String> {
     let mut sides = vec![];
     let mut parent = cons.genesis_hash();
     let mut uncle: Option<BlockView> = None;
-    for h in 1..=CHAIN_LEN {
+    for h in 1..=chain_len {
         let mut spec = BlockSpec { miner: 1, ..Default::default() };
         match h {
             1 => spec.proposals = vec![txu.txs["T1"].proposal_short_id(), txu.txs["T2"].proposal_short_id(), txu.txs["Ta"].proposal_short_id()],
@@ -49,7 +55,9 @@ pub fn build(forge: &mut Forge, cons: &Consensus) -> Result<Universe, String> {
             }
             3 => {
                 spec.txs = vec![txu.txs["T1"].clone(), txu.txs["T2"].clone()];
-                spec.uncles = vec![uncle.as_ref().unwrap().as_uncle()];
+                if with_uncle {
+                    spec.uncles = vec![uncle.as_ref().unwrap().as_uncle()];
+                }
             }
             4 => spec.txs = vec![txu.txs["Ta"].clone()],
             9 => spec.proposals = vec![late.proposal_short_id()],
@@ -173,6 +181,16 @@ fn compare_battery(tag: &str, f: &BTreeMap<String, String>, n: &BTreeMap<String,
     }
 }
 
+/// world-independent form: the number of the last block of the epoch two before the tip's, read
+/// from the main chain's headers (0 while the tip is in epoch 0..=2)
+fn expected_threshold_of(main: &[BlockView]) -> u64 {
+    let e = main.last().map(|b| b.epoch().number()).unwrap_or(0);
+    if e <= 2 {
+        return 0;
+    }
+    main.iter().find(|b| b.number() > 0 && b.epoch().number() == e - 1).map(|b| b.number() - 1).unwrap_or(0)
+}
+
 fn expected_threshold(tip: u64) -> u64 {
     // 4-block epochs: epoch e = tip / 4; freeze acts when e > 2: threshold = number of the last
     // block of epoch e-2 = 4*(e-1) - 1; the freezer then holds blocks 1..threshold-1
@@ -186,7 +204,12 @@ fn freezer_number(node: &Node) -> u64 {
 
 fn check_policy(node: &Node, tip: u64, prev_number: u64, report: &mut Report, label: &Value) -> u64 {
     let num = freezer_number(node);
-    let th = expected_threshold(tip);
+    let th = expected_threshold_of(&node.main_chain());
+    if !node.shared.consensus().permanent_difficulty() || tip == 0 {
+        // (dynamic world: only the general form applies)
+    } else if th != expected_threshold(tip) {
+        report.violation("reference/threshold-forms-disagree", format!("tip {tip}: {th} vs {}", expected_threshold(tip)), label.clone());
+    }
     if th > 0 && num > th.max(1) {
         report.violation("policy/too-young-block-frozen", format!("tip {tip}: freezer holds blocks below {num}, the two-epoch threshold is {th}"), label.clone());
     }
@@ -341,6 +364,30 @@ pub fn run(ctx: &Ctx) -> Report {
             return report;
         }
     }
+    // ---------------- history family in the dynamic-difficulty world (epochs of 4, 8, 16 blocks: the
+    // two-epoch threshold moves by a different amount at every epoch boundary)
+    if (ctx.shard == 1 % ctx.shards && replay.is_none()) || want_family.as_deref() == Some("history-dynamic") {
+        let mut go = || -> Result<(), String> {
+            let mut w = WorldOpts::default();
+            w.permanent_difficulty = false;
+            w.genesis_compact_target = ckb_types::utilities::difficulty_to_compact(ckb_types::U256::from(1u64 << 24));
+            let dcons = consensus(&w);
+            set_time(time_for_height(1));
+            let mut forge = Forge::new(&ctx.scratch.join("forge-dyn"), &dcons)?;
+            let du = build_len(&mut forge, &dcons, 34, false)?;
+            drop(forge);
+            let ddl = deliveries(&du);
+            let lens: std::collections::BTreeSet<u64> = du.main.iter().map(|b| b.epoch().length()).collect();
+            if lens.len() < 3 {
+                return Err(format!("the dynamic world gave epoch lengths {lens:?}"));
+            }
+            history_family_in(ctx, &dcons, &du, &ddl, "history-dynamic", &mut report)
+        };
+        if let Err(e) = go() {
+            report.machinery_errors.push(format!("history family (dynamic world): {e}"));
+            return report;
+        }
+    }
     // ---------------- crash family
     if replay.is_none() || want_family.as_deref() == Some("crash") {
         let only: Option<(usize, u64)> = replay.as_ref().map(|v| (v["deliver"].as_u64().unwrap() as usize, v["crash_at"].as_u64().unwrap()));
@@ -369,18 +416,22 @@ fn twin_at(ctx: &Ctx, cons: &Consensus, dl: &[(String, BlockView)], upto: usize,
 }
 
 fn history_family(ctx: &Ctx, cons: &Consensus, u: &Universe, dl: &[(String, BlockView)], report: &mut Report) -> Result<(), String> {
-    let fdir = ctx.scratch.join("freezing");
+    history_family_in(ctx, cons, u, dl, "history", report)
+}
+
+fn history_family_in(ctx: &Ctx, cons: &Consensus, u: &Universe, dl: &[(String, BlockView)], fam: &str, report: &mut Report) -> Result<(), String> {
+    let fdir = ctx.scratch.join(format!("freezing-{fam}"));
     let _ = std::fs::remove_dir_all(&fdir);
     let mut f = Node::boot(&fdir, &freezing_opts(cons, &fdir))?;
     f.wait_startup()?;
-    let twin = twin_at(ctx, cons, dl, 0, "history")?;
+    let twin = twin_at(ctx, cons, dl, 0, fam)?;
     let mut prev_number = freezer_number(&f);
     for (i, (name, b)) in dl.iter().enumerate() {
         set_time(b.timestamp());
         f.process(b).map_err(|e| format!("freezing node refused {name}: {e}"))?;
         twin.process(b).map_err(|e| format!("twin refused {name}: {e}"))?;
         report.transitions += 1;
-        let label = json!({"family": "history", "after": name, "step": i});
+        let label = json!({"family": fam, "after": name, "step": i});
         let pass = std::panic::catch_unwind(std::panic::AssertUnwindSafe(|| f.shared.verif_freeze_once()));
         match pass {
             Ok(Ok(())) => {}
@@ -400,10 +451,10 @@ fn history_family(ctx: &Ctx, cons: &Consensus, u: &Universe, dl: &[(String, Bloc
         let fs = battery(f.shared.snapshot().as_ref(), u, cons, i + 1);
         compare_battery("snapshot", &fs, &tb, u, num, report, &label);
         report.evaluations += 1;
-        report.states.insert(fp(&(tipn, num)));
+        report.states.insert(fp(&(fam, tipn, num)));
         report.outcomes.insert(fp(&(num, fb.values().filter(|v| v.as_str() == "None").count())));
         if num > 1 {
-            report.nontrivial.insert(fp(&("history", i)));
+            report.nontrivial.insert(fp(&(fam, i)));
         }
         if froze {
             // restart: answers must survive a re-open
@@ -416,7 +467,7 @@ fn history_family(ctx: &Ctx, cons: &Consensus, u: &Universe, dl: &[(String, Bloc
             if freezer_number(&f) != num {
                 report.violation("policy/freezer-number-changed-by-restart", format!("freezer number {num} -> {} across restart", freezer_number(&f)), label.clone());
             }
-            report.sample(json!({"family": "history", "after": name, "freezer_number": num, "queries": fb.len()}));
+            report.sample(json!({"family": fam, "after": name, "freezer_number": num, "queries": fb.len()}));
         }
     }
     report.traces += 1;
